@@ -205,7 +205,8 @@ def feature(c):
 THOROUGH = (('AreaSet = {"none", "poly", "a4110", "a4120v2"}',
              'AreaSet = {"none", "poly", "a4105v1", "a4105v2", "a4110", "a4120v1", "a4120v2", "a4120v3", "a4120v2y15", "statcom"}'),
             ("PIdx = {2, 5, 9}", "PIdx = {1, 2, 3, 4, 5, 6, 7, 8, 9}"),
-            ("VIdx = {1, 3, 5, 7}", "VIdx = {1, 3, 5, 7, 9}"),
+            ("VIdx = {1, 3, 5, 7}", "VIdx = {1, 2, 3, 4, 5, 6, 7, 8, 9}"),
+            ("VCore = {1, 3, 5, 7}", "VCore = {1, 3, 5, 7, 9}"),
             ("Geos = {1, 3}", "Geos = {4}"))
 
 
@@ -241,7 +242,7 @@ def run(tier, seed, replay=None):
             c = jsonable({"cfg": s["cfg"], "reg": s["reg"]})
             c["jit"] = dict(NOJIT)
             todo.append(c)
-            if tier == "thorough" and rng.random() < 0.34:      # seeded replicas off the levels
+            if tier == "thorough" and rng.random() < 0.15:      # seeded replicas off the levels
                 d = dict(c)
                 d["jit"] = {"dp": rng.randint(-250, 250) if p_level(c["cfg"]["area"], c["cfg"]["pi"]) > 0 else 0,
                             "dq": rng.randint(-250, 250), "dv": rng.randint(-450, 450)}
@@ -283,7 +284,7 @@ def run(tier, seed, replay=None):
         "rule": "every initial state of Der.tla (area class x p level x v level [indices into the area's corner-point tables] x "
                 "q model/request x saturate_sn_mva/q_prio x damping x element geometry) is run through run_control on the real "
                 "DERController; every executed control step and the settled state are checked; thorough adds a replica with seeded offsets on p, q, v "
-                "for a seeded third of the configurations; non-trivial = the controller executed at least one control "
+                "for a seeded 15 % of the configurations; non-trivial = the controller executed at least one control "
                 "step and a clause applies (saturation active or an area given)",
         "control_steps_checked": nsteps,
         "first_request_region": regs,
